@@ -192,6 +192,7 @@ type svcStat struct {
 	gate            chan struct{}
 	gateOnce        sync.Once
 	noWrite         atomic.Bool
+	doPanic         atomic.Bool
 }
 
 func (st *svcStat) open() { st.gateOnce.Do(func() { close(st.gate) }) }
@@ -199,6 +200,9 @@ func (st *svcStat) open() { st.gateOnce.Do(func() { close(st.gate) }) }
 type svcHandler struct {
 	mu    sync.Mutex
 	stats map[string]*svcStat
+	// answerAll makes the handler answer at once, without gates or tallies
+	// (DoH / DNSCrypt scenarios, where the connection is the library's).
+	answerAll bool
 }
 
 func (h *svcHandler) stat(key string) (st *svcStat) {
@@ -214,6 +218,9 @@ func (h *svcHandler) stat(key string) (st *svcStat) {
 }
 
 func (h *svcHandler) ServeDNS(ctx context.Context, rw dnsserver.ResponseWriter, req *dns.Msg) (err error) {
+	if h.answerAll {
+		return rw.WriteMsg(ctx, req, (&dns.Msg{}).SetReply(req))
+	}
 	st := h.stat(rw.RemoteAddr().String() + ">" + rw.LocalAddr().String())
 	st.mu.Lock()
 	st.inflight++
@@ -222,6 +229,14 @@ func (h *svcHandler) ServeDNS(ctx context.Context, rw dnsserver.ResponseWriter, 
 	}
 	st.mu.Unlock()
 	st.entered.Add(1)
+	if st.doPanic.Load() {
+		// A handler that panics: serveTCPMessage recovers, writes nothing and
+		// does not close the connection; the deferred Release must still run.
+		st.mu.Lock()
+		st.inflight--
+		st.mu.Unlock()
+		panic("c18: handler panic")
+	}
 
 	<-st.gate
 
@@ -273,7 +288,20 @@ func startSvc(c *svcCase, lim *connlimiter.Limiter, h *svcHandler) (svc *dnssvc.
 			UDPConf: &agd.UDPConfig{MaxRespSize: 1232},
 		}
 		bd := &agd.ServerBindData{AddrPort: netip.MustParseAddrPort("127.0.0.1:0")}
-		if strings.HasPrefix(kind, "dot") {
+		if kind == "doh" {
+			// DNS-over-HTTPS over TCP only (no HTTP/3): net/http owns the
+			// connections that the limited listener hands out.
+			srv.Protocol = agd.ProtoDoH
+			tc := selfSigned().Clone()
+			tc.NextProtos = []string{"h2", "http/1.1"}
+			h3 := selfSigned().Clone()
+			h3.NextProtos = []string{"h3"}
+			srv.TLS = &agd.TLSConfig{Default: tc, H3: h3}
+			srv.QUICConf = &agd.QUICConfig{}
+		} else if kind == "dnscrypt" {
+			srv.Protocol = agd.ProtoDNSCrypt
+			srv.DNSCrypt = dnscryptConf()
+		} else if strings.HasPrefix(kind, "dot") {
 			srv.Protocol = agd.ProtoDoT
 			srv.TLS = &agd.TLSConfig{Default: selfSigned()}
 			if strings.HasSuffix(kind, "+bind") {
@@ -669,7 +697,7 @@ func runEndsCase(r *hlib.Result, c *endsCase) {
 		r.Disagree("ends", fmt.Sprintf("idle %s service: counter %d, expected 1 pending accept", c.Kind, cur()), replay)
 	}
 	garbage := []byte("GET / HTTP/1.0\r\n\r\n")
-	ends := []string{"silent", "garbage", "junk-message", "truncated", "answered", "unanswered"}
+	ends := []string{"silent", "garbage", "junk-message", "truncated", "answered", "unanswered", "panic"}
 	for _, e := range ends {
 		raw, derr := net.Dial("tcp", addr)
 		hlib.Must(derr)
@@ -697,6 +725,21 @@ func runEndsCase(r *hlib.Result, c *endsCase) {
 		case "unanswered":
 			st.noWrite.Store(true)
 			_, _ = conn.Write(append(svcQuery(1), svcQuery(2)...))
+		case "panic":
+			// As many panicking handlers as the pipeline has tokens, then one
+			// more query: it is answered only if the tokens came back.
+			st.doPanic.Store(true)
+			_, _ = conn.Write(append(svcQuery(1), svcQuery(2)...))
+			if !waitFor(func() bool { return st.entered.Load() == 2 }, 10*time.Second) {
+				r.Disagree("ends", fmt.Sprintf("%s: two pipelined queries did not both reach the handler", c.Kind), replay)
+			}
+			st.doPanic.Store(false)
+			_, _ = conn.Write(svcQuery(3))
+			if !waitFor(func() bool { return st.exited.Load() == 1 }, 10*time.Second) {
+				r.Disagree("ends", fmt.Sprintf(
+					"%s: after max_pipeline_count handlers of a connection panicked the next query of the connection is never processed "+
+						"(semaphore tokens not given back)", c.Kind), replay)
+			}
 		}
 		if e != "unanswered" {
 			halfClose()
